@@ -120,7 +120,8 @@ func (b *backendLoginSessionHandler) handleLoginPluginMessage(p *packet.LoginPlu
 		requestedForwardingVersion := velocity.DefaultForwardingVersion
 		// Check version
 		if len(p.Data) == 1 {
-			requestedForwardingVersion = int(p.Data[0])
+			// Velocity reads a signed byte: 128..255 are negative and fall back to the default version.
+			requestedForwardingVersion = int(int8(p.Data[0]))
 		}
 
 		forwardingData, err := velocity.CreateForwardingData(
